@@ -180,33 +180,100 @@ def parse_dispatch(src):
     if not mm:
         raise ParseError("`match self.backend` not found in the dispatching score_rows_into")
     arms_txt = mm.group(1)
-    kernels = {"Avx2::score_f32_rows_into": "KAvx2", "Sse2::score_rows_into": "KSse2"}
-    table = {}
-    default = None
-    for am in re.finditer(r"(Dispatch::(\w+)|_)\s*=>\s*(<\s*Generic\s+as\s+Score\s*<\s*f32\b[^;(]*?>\s*::\s*score_rows_into|(\w+\s*::\s*\w+))\s*\(",
+    kernels = {"Avx2::score_f32_rows_into": "KAvx2", "Sse2::score_rows_into": "KSse2",
+               "Neon::score_f32_rows_into": "NKNeon"}
+    # every arm with the #[cfg(any(target_arch = ..))] attribute in front of it (None = unconditional)
+    arms = []
+    for am in re.finditer(r"(?:#\[cfg\(any\(([^\]]*)\)\)\]\s*)?(Dispatch::(\w+)|_)\s*=>\s*"
+                          r"(<\s*Generic\s+as\s+Score\s*<\s*f32\b[^;(]*?>\s*::\s*score_rows_into|(\w+\s*::\s*\w+))\s*\(",
                           arms_txt, re.S):
-        if am.group(4):
-            target = re.sub(r"\s+", "", am.group(4))
-            if target.startswith("Neon::"):
-                continue
+        cfg = am.group(1)
+        if cfg is None:
+            host = None
+        elif "x86" in cfg and "arm" not in cfg and "aarch64" not in cfg:
+            host = "x86"
+        elif ("arm" in cfg or "aarch64" in cfg) and "x86" not in cfg:
+            host = "arm"
+        else:
+            raise ParseError("dispatch arm with an unexpected cfg: %s" % cfg.strip())
+        if am.group(5):
+            target = re.sub(r"\s+", "", am.group(5))
             if target not in kernels:
                 raise ParseError("dispatch arm targets unknown kernel %s" % target)
             k = kernels[target]
         else:
-            k = "KGeneric"
-        if am.group(1) == "_":
-            default = k
-        else:
-            table[am.group(2)] = k
-    out = {}
-    for arm in ("Generic", "Sse2", "Avx2"):
-        if arm in table:
-            out[arm] = table[arm]
-        elif default is not None:
-            out[arm] = default
-        else:
-            raise ParseError("dispatch arm %s has no kernel" % arm)
-    return out
+            k = "generic"
+        arms.append((host, am.group(3), k))          # group(3) is None for `_`
+
+    def table_for(host, variants, generic_name, allowed):
+        table, default = {}, None
+        for h, arm, k in arms:
+            if h is not None and h != host:
+                continue
+            k = generic_name if k == "generic" else k
+            if k not in allowed:
+                raise ParseError("%s arm %s targets %s" % (host, arm or "_", k))
+            if arm is None:
+                default = k
+            elif arm in table:
+                raise ParseError("dispatch arm %s appears twice for %s hosts" % (arm, host))
+            else:
+                table[arm] = k
+        out = {}
+        for arm in variants:
+            if arm in table:
+                out[arm] = table[arm]
+            elif default is not None:
+                out[arm] = default
+            else:
+                raise ParseError("dispatch arm %s has no kernel on %s hosts" % (arm, host))
+        return out
+
+    x86 = table_for("x86", ("Generic", "Sse2", "Avx2"), "KGeneric", ("KGeneric", "KSse2", "KAvx2"))
+    arm = table_for("arm", ("Generic", "Neon"), "NKGeneric", ("NKGeneric", "NKNeon"))
+    return x86, arm
+
+
+# the steps of a safe scoring wrapper, in the order SimdModel.simd_guard models them
+WRAPPER_STEPS = [
+    ("WWrapGuard", r"if\s+seq\s*\.\s*wrap\s*\(\s*\)\s*<\s*pssm\s*\.\s*rows\s*\(\s*\)\s*-\s*1\s*\{\s*panic!"),
+    ("WShortReturn", r"if\s+seq\s*\.\s*len\s*\(\s*\)\s*<\s*pssm\s*\.\s*rows\s*\(\s*\)\s*\|\|\s*rows\s*\.\s*is_empty\s*\(\s*\)\s*\{\s*scores\s*\.\s*resize\s*\(\s*0\s*,\s*0\s*\)\s*;\s*return\s*;"),
+    ("WRangeGuard", r"if\s+rows\s*\.\s*end\s*\+\s*pssm\s*\.\s*rows\s*\(\s*\)\s*-\s*1\s*>\s*seq\s*\.\s*matrix\s*\(\s*\)\s*\.\s*rows\s*\(\s*\)\s*\{\s*panic!"),
+    ("WResize", r"scores\s*\.\s*resize\s*\(\s*rows\s*\.\s*len\s*\(\s*\)\s*,\s*\(\s*seq\s*\.\s*len\s*\(\s*\)\s*\+\s*1\s*\)\s*\.\s*saturating_sub\s*\(\s*pssm\s*\.\s*rows\s*\(\s*\)\s*\)\s*\)\s*;"),
+]
+
+
+def wrapper_steps(src, fn, kernel):
+    """The recognised steps of the safe wrapper `fn`, in source order, as constructor names of
+    SimdModel.wrapper_step; WOther for an early `return`, `panic!` or `resize` that is none of the
+    modelled ones.  A missing, duplicated or reordered guard changes the list (and the generated
+    theorem C01_wrapper_guards_as_modelled no longer checks)."""
+    body = _function_body(src, fn)
+    found = []
+    covered = []
+    for name, rx in WRAPPER_STEPS + [("WKernel", r"\b%s\s*\(\s*pssm\s*,\s*seq\s*,\s*rows\s*,\s*scores\s*\)" % kernel)]:
+        for m in re.finditer(rx, body):
+            found.append((m.start(), name))
+            covered.append((m.start(), m.end()))
+    # anything else that can leave the wrapper early or resize the buffer
+    for m in re.finditer(r"\breturn\b|\bpanic!|\.\s*resize\s*\(", body):
+        if not any(a <= m.start() < b for a, b in covered):
+            # the panic of the non-x86 / non-Arm cfg branch after the kernel call is not a guard
+            tail = body[m.start():m.start() + 80]
+            if re.match(r"panic!\s*\(\s*\"attempting to run", tail):
+                continue
+            found.append((m.start(), "WOther"))
+    return [n for _, n in sorted(found)]
+
+
+def parse_kernel_choice(src):
+    """`if A::K::USIZE <= N { permute } else { gather }` of Avx2::score_f32_rows_into."""
+    body = _function_body(src, "score_f32_rows_into")
+    m = re.search(r"if\s+A\s*::\s*K\s*::\s*USIZE\s*<=\s*(\d+)\s*\{\s*Self\s*::\s*score_f32_rows_into_permute\s*\([^)]*\)\s*;?\s*\}"
+                  r"\s*else\s*\{\s*Self\s*::\s*score_f32_rows_into_gather\s*\(", body)
+    if not m:
+        raise ParseError("score_f32_rows_into: `if A::K::USIZE <= N { permute } else { gather }` not found")
+    return int(m.group(1))
 
 
 def _consts(name, k):
@@ -220,11 +287,16 @@ def _consts(name, k):
     return L
 
 
-def render(perm, gath, disp):
+def _steps(name, steps, what):
+    return ["(* %s *)" % what,
+            "Definition %s : list wrapper_step := [%s]." % (name, "; ".join(steps))]
+
+
+def render(perm, gath, disp, disp_arm, wrappers, max_k):
     L = []
     L.append("(* GENERATED by translate/score_avx2.py from /repo/lightmotif/src/pli/platform/avx2.rs")
-    L.append("   (score_f32_avx2_permute, score_f32_avx2_gather) and pli/dispatch.rs -- do not edit;")
-    L.append("   regenerated on every check. *)")
+    L.append("   (score_f32_avx2_permute, score_f32_avx2_gather, the three AVX2 score wrappers) and")
+    L.append("   pli/dispatch.rs -- do not edit; regenerated on every check. *)")
     L.append("From Coq Require Import List NArith.")
     L.append("From LMScore Require Import ScoreModel SimdModel.")
     L.append("Import ListNotations.")
@@ -236,12 +308,29 @@ def render(perm, gath, disp):
     L.append("")
     L += _consts("avx2_gather_consts", gath)
     L.append("")
-    L.append("(* `match self.backend` of impl Score<f32, A, Lanes> for Pipeline<A, Dispatch> *)")
+    L.append("(* `match self.backend` of impl Score<f32, A, Lanes> for Pipeline<A, Dispatch>: the arms compiled")
+    L.append("   on x86 / x86_64 hosts (cfg any(x86, x86_64) or unconditional) *)")
     L.append("Definition dispatch_score_f32 (a : arm) : kernel_id :=")
     L.append("  match a with")
     for arm in ("Generic", "Sse2", "Avx2"):
         L.append("  | Arm%s => %s" % (arm, disp[arm]))
     L.append("  end.")
+    L.append("")
+    L.append("(* the same match as compiled on arm / aarch64 hosts (cfg any(arm, aarch64) or unconditional) *)")
+    L.append("Definition dispatch_score_f32_arm (a : neon_arm) : neon_kernel_id :=")
+    L.append("  match a with")
+    for arm in ("Generic", "Neon"):
+        L.append("  | NArm%s => %s" % (arm, disp_arm[arm]))
+    L.append("  end.")
+    L.append("")
+    L.append("(* Avx2::score_f32_rows_into: `if A::K::USIZE <= N { permute kernel } else { gather kernel }` *)")
+    L.append("Definition avx2_permute_max_k : nat := %d." % max_k)
+    L.append("")
+    L.append("(* the recognised steps of the three safe AVX2 score wrappers, in source order *)")
+    for name, what in (("avx2_permute_wrapper", "Avx2::score_f32_rows_into_permute"),
+                       ("avx2_gather_wrapper", "Avx2::score_f32_rows_into_gather"),
+                       ("avx2_u8_wrapper", "Avx2::score_u8_rows_into_shuffle")):
+        L += _steps(name, wrappers[name], what)
     L.append("")
     return "\n".join(L)
 
@@ -252,8 +341,13 @@ def run(write=True):
         src = _strip_comments(open(AVX2).read())
         perm = parse_kernel(src, "score_f32_avx2_permute", "permute")
         gath = parse_kernel(src, "score_f32_avx2_gather", "gather")
-        disp = parse_dispatch(_strip_comments(open(DISPATCH).read()))
-        text = render(perm, gath, disp)
+        disp, disp_arm = parse_dispatch(_strip_comments(open(DISPATCH).read()))
+        wrappers = dict(
+            avx2_permute_wrapper=wrapper_steps(src, "score_f32_rows_into_permute", "score_f32_avx2_permute"),
+            avx2_gather_wrapper=wrapper_steps(src, "score_f32_rows_into_gather", "score_f32_avx2_gather"),
+            avx2_u8_wrapper=wrapper_steps(src, "score_u8_rows_into_shuffle", "score_u8_avx2_shuffle"))
+        max_k = parse_kernel_choice(src)
+        text = render(perm, gath, disp, disp_arm, wrappers, max_k)
     except (ParseError, OSError, ValueError) as e:
         errors.append("score_avx2: cannot parse the source: %s" % e)
         if not os.path.exists(OUT):
@@ -269,13 +363,15 @@ def run(write=True):
             with open(OUT, "w") as f:
                 f.write(text)
             changed = True
-    notes.append("score_avx2: %d+%d masks, %d+%d stores, dispatch %s%s" % (
+    notes.append("score_avx2: %d+%d masks, %d+%d stores, dispatch x86 %s, arm %s, permute for K <= %d, wrapper steps %s%s" % (
         len(perm["masks"]), len(gath["masks"]), len(perm["stores"]), len(gath["stores"]),
-        ",".join("%s->%s" % kv for kv in sorted(disp.items())), " (regenerated)" if changed else ""))
+        ",".join("%s->%s" % kv for kv in sorted(disp.items())),
+        ",".join("%s->%s" % kv for kv in sorted(disp_arm.items())), max_k,
+        "/".join(str(len(v)) for v in wrappers.values()), " (regenerated)" if changed else ""))
     return dict(ok=True, notes=notes, errors=errors)
 
 
 if __name__ == "__main__":
-    r = run()
+    r = run(write="--dry" not in sys.argv)
     print(r)
     sys.exit(0 if r["ok"] else 1)
